@@ -188,12 +188,16 @@ contract(
 contract(
     "dvc_data.hashfile.db:HashFileDB._remove_unpacked_dir",
     params=dict(self=HashFileDB, hash_=TStr),
+    modifies=lambda c: [("HashFileDB.nonobj_removals", c.self)],
+    ensures=lambda c: c.h.get("HashFileDB.nonobj_removals", c.self) == c.h0.get("HashFileDB.nonobj_removals", c.self) + 1,
     assumed=True,
     doc="base class: no-op (LocalHashFileDB removes a legacy '<oid>.dir.unpacked' directory, which is not an object)",
 )
 contract(
     "dvc_data.hashfile.db.local:LocalHashFileDB._remove_unpacked_dir",
     params=dict(self=HashFileDB, hash_=TStr),
+    modifies=lambda c: [("HashFileDB.nonobj_removals", c.self)],
+    ensures=lambda c: c.h.get("HashFileDB.nonobj_removals", c.self) == c.h0.get("HashFileDB.nonobj_removals", c.self) + 1,
     assumed=True,
     verify=False,
     doc="removes the legacy '<oid>.dir.unpacked' directory next to a directory object: not an object of the store "
@@ -247,6 +251,7 @@ def _loop1_inv(c):
         c.loc.dir_paths.length() + c.loc.file_paths.length() == cnt_upto(A, U, c.idx),
         objs(c.h, c.odb) == objs(c.h0, c.odb),
         c.h.raw("HashFileDB.objs") == c.h0.raw("HashFileDB.objs"),
+        Implies(c.dry, c.h.raw("HashFileDB.nonobj_removals") == c.h0.raw("HashFileDB.nonobj_removals")),
     )
 
 
@@ -258,6 +263,7 @@ def _gc_post(c):
     return And(
         c.result == card_unused(o0, U),  # the count of the objects that are (or, dry, would be) removed
         Implies(c.dry, c.h.raw("HashFileDB.objs") == c.h0.raw("HashFileDB.objs")),
+        Implies(c.dry, c.h.raw("HashFileDB.nonobj_removals") == c.h0.raw("HashFileDB.nonobj_removals")),  # a dry run removes nothing at all
         # exactly the unused objects are removed (stated as three implications: one query each)
         Implies(Not(c.dry), ForAll([h], Implies(o1.contains(h), o0.contains(h)))),
         Implies(Not(c.dry), ForAll([h], Implies(kept, o1.contains(h)))),
@@ -274,7 +280,7 @@ contract(
         "ObjectDBPermissionError": (lambda c: c.h.get("HashFileDB.read_only", c.odb), lambda c: c.h.raw("HashFileDB.objs") == c.h0.raw("HashFileDB.objs")),
         "FileNotFoundError": (lambda c: Not(c.shallow), lambda c: c.h.raw("HashFileDB.objs") == c.h0.raw("HashFileDB.objs")),
     },
-    modifies=lambda c: [("HashFileDB.objs", None)],
+    modifies=lambda c: [("HashFileDB.objs", None), ("HashFileDB.nonobj_removals", None)],
     locals=dict(used_hashes=USet, dir_paths=TList(TStr), file_paths=TList(TStr)),
     invariants={0: _loop0_inv, 1: _loop1_inv},
     no_merge=True,
@@ -283,3 +289,24 @@ contract(
     props=["C06"],
     doc="removes exactly the objects whose id is not in the used set (expanded when asked); dry run removes nothing; read-only refused",
 )
+
+
+def _gc_native(repo, con, fdef, ob, model):
+    import json
+    import os
+    import subprocess
+
+    here = os.path.dirname(os.path.dirname(os.path.abspath(__file__)))
+    out = {"kind": "native scenario suite (replay/gc_scenarios.py): independent set-difference oracle on real stores", "reproduced": False}
+    try:
+        p = subprocess.run(["/venv/bin/python", os.path.join(here, "replay", "gc_scenarios.py")], capture_output=True, text=True,
+                           env=dict(os.environ, PYVC_REPO_SRC=repo.src), timeout=300)
+        reps = json.loads(p.stdout)
+        bad = [r for r in reps if "violation" in r]
+        out.update(scenarios_run=len(reps), failing=bad[:3], reproduced=bool(bad))
+    except Exception as e:  # noqa: BLE001
+        out["detail"] = "scenario suite could not run: " + repr(e)
+    return out
+
+
+REG.get("dvc_data.hashfile.gc:gc").replay = _gc_native
